@@ -512,3 +512,17 @@ def concat_all(segments):
     for s in segments:
         out = out + list(s)
     return out
+
+
+@lemma
+def div_div2(p: Int, q: Int):
+    requires(p >= 0 and q > 0)
+    ensures((p // q) // 2 == p // (2 * q))
+
+
+@lemma
+def prefix_step(p: Int, e: Int):
+    """the top bits of p above position e: one more bit is 2 * (bits above e+1) + bit e"""
+    requires(p >= 0 and e >= 0)
+    ensures(p // pow2(e) == 2 * (p // pow2(e + 1)) + (p // pow2(e)) % 2)
+    div_div2(p, pow2(e))
